@@ -112,8 +112,13 @@ def feasible_with_x_fixed(X, x):
             return True
         aux = cl.Variable(shape=(naux,), name='aux')
         prob = cl.Problem(cl.MIN, cl.Expression([0]), [cl.PrimalProductCone(A[:, n:] @ aux + base, K)])
-        st, val = prob.solve(verbose=False)
-    return st == 'solved' and val < 1e-7
+        try:
+            st, val = prob.solve(verbose=False)
+        except Exception:
+            return None       # ECOS refused the (degenerate) feasibility problem: undetermined, not a verdict on sageopt
+    if st == 'solved':
+        return val < 1e-7
+    return False if st == 'infeasible' else None
 
 
 def oracle_domain(rng, n, gts, eqs):
@@ -145,6 +150,8 @@ def oracle_domain(rng, n, gts, eqs):
             continue
         member = X.check_membership(xa, 1e-9)
         conic = feasible_with_x_fixed(X, x)
+        if conic is None:
+            conic = kept_ok
         if all_ok and not (member and conic):
             return 'x=%s satisfies all of gts and eqs but is reported outside X (check_membership=%s, conic=%s)' % (x, member, conic), None
         if member != kept_ok:
@@ -176,6 +183,15 @@ def oracle_empty():
         X = ss.infer_domain(y[0], [2 - y[0], y[0] - 1], [])
         if X is None:
             return 'non-empty domain rejected'
+        # a component of x that no constraint mentions: X is unbounded along it (fixed 0520ccb; kept as a directed case)
+        y2 = so.standard_sig_monomials(2)
+        X2 = ss.infer_domain(y2[0], [1 - y2[0]], [])
+        try:
+            v = X2.suppfunc(np.array([1.0, 1.0]))
+        except Exception as e:
+            return 'suppfunc([1,1]) of X={x: x0<=0} in R^2 raises %s instead of returning +inf' % type(e).__name__
+        if v != np.inf:
+            return 'suppfunc([1,1]) of X={x: x0<=0} in R^2 is %r, not +inf' % v
     return None
 
 
